@@ -139,6 +139,16 @@ Definition impl_prep (s : script) (c : pctx) (tree : select) : select :=
 Definition impl_text (s : script) (c : pctx) (tree : select) : option string :=
   SqlRender.render (impl_prep s c tree) (c_cluster c).
 
+(* the tree the planner MODEL builds carries, inside every WRef, the query its alias is bound to in the WITH list of the
+   statement (add_with hoists nested members, the first member of an alias wins): the statement text and the tree mean the same
+   (C07's LogqlSemCheck.wrefs_bound: text of the carried query = text of the bound member, for every reachable reference).
+   Cluster mode prints the carried query inline: nothing to bind. *)
+Definition model_wrefs_bound (s : script) (c : pctx) : bool :=
+  match metric_select s c with
+  | Some q => c_cluster c || LogqlSemCheck.wrefs_bound q
+  | None => true
+  end.
+
 Definition verdict_rows (t : option table) (want : option (list vrow)) : Z :=
   match t, want with
   | Some t, Some v => match map_opt out_of_row t with
@@ -150,6 +160,69 @@ Definition verdict_rows (t : option table) (want : option (list vrow)) : Z :=
   end.
 Definition is_topk (s : script) : bool := match s with STopK _ => true | _ => false end.
 Definition no_reference (s : script) : bool := match s with STopK _ | SLog _ | SMacros => true | _ => false end.
+
+(* ---------- topk / bottomk: the reference is a relation (any top-k set), decided here ----------
+   For a step not longer than the range (no re-bucketing after the selection) topk_correct says: out = the rows of a kept set K that
+   pass the threshold, where per timestamp K holds min(k, n) of the n rows of the inner vector and no dropped row beats a kept one.
+   Decision per timestamp t, I = the inner rows at t, O = the statement's rows at t:
+     O is a sub-multiset of I and every row of O passes the threshold;  m = min(k, |I|) - |O| >= 0 further rows were kept and failed
+     the threshold: the m best rows X among those of I - O that fail it (the best choice: it leaves the weakest rows dropped);
+     no row of I - O - X beats a row of O + X. *)
+Definition topk_inner (t : Logql.topk) : script :=
+  match tk_arg t with TKLra l => SLra l | TKAgg a => SAgg a | TKQuantile q => SQuantile q end.
+Definition orow := (lmap * Z * Q)%type.
+Definition orow_of (v : vrow) : orow := (v_labels v, v_ts v, this (v_val v)).
+Definition orow_eqb (a b : orow) : bool :=
+  lmap_eqb (fst (fst a)) (fst (fst b)) && Z.eqb (snd (fst a)) (snd (fst b)) && Qeq_bool (snd a) (snd b).
+Fixpoint remove_orow (a : orow) (l : list orow) : option (list orow) :=
+  match l with
+  | [] => None
+  | b :: r => if orow_eqb a b then Some r else match remove_orow a r with Some r' => Some (b :: r') | None => None end
+  end.
+Fixpoint msub_orow (sub all : list orow) : option (list orow) :=     (* all - sub, when sub is a sub-multiset *)
+  match sub with
+  | [] => Some all
+  | x :: r => match remove_orow x all with Some all' => msub_orow r all' | None => None end
+  end.
+Fixpoint insert_q (better : Q -> Q -> bool) (x : orow) (l : list orow) : list orow :=
+  match l with [] => [x] | y :: r => if better (snd x) (snd y) then x :: l else y :: insert_q better x r end.
+Definition cmp_passes (c : option comparison) (x : orow) : bool :=
+  match c with
+  | None => true
+  | Some cm => cmp_holds (cmp_fn cm) (Q2Qc (snd x)) (dec_value (cmp_val cm))
+  end.
+Definition topk_ts_ok (k : Z) (top : bool) (cm : option comparison) (inner out : list orow) (t : Z) : bool :=
+  let at_t := filter (fun x : orow => Z.eqb (snd (fst x)) t) in
+  let I := at_t inner in let O := at_t out in
+  let better (a b : Q) := if top then Qle_bool b a else Qle_bool a b in       (* a is at least as good as b *)
+  match msub_orow O I with
+  | None => false
+  | Some D =>
+    forallb (cmp_passes cm) O &&
+    let m := (Z.min (Z.max k 0) (Z.of_nat (List.length I)) - Z.of_nat (List.length O))%Z in
+    Z.leb 0 m &&
+    let F := fold_right (insert_q better) [] (filter (fun x => negb (cmp_passes cm x)) D) in
+    Z.leb m (Z.of_nat (List.length F)) &&
+    let X := firstn (Z.to_nat m) F in
+    let dropped := (filter (cmp_passes cm) D ++ skipn (Z.to_nat m) F)%list in
+    forallb (fun d => forallb (fun x => better (snd x) (snd d)) (O ++ X)%list) dropped
+  end.
+Definition topk_ok (k : Z) (top : bool) (cm : option comparison) (inner out : list orow) : bool :=
+  forallb (topk_ts_ok k top cm inner out) (map (fun x : orow => snd (fst x)) (inner ++ out)%list).
+(* 0 = the statement's rows are a threshold-filtered top-/bottom-k selection of the inner vector's reference; 1 = they are not;
+   2 = the statement does not evaluate; 3 = not judged (step longer than the range: the selection is re-bucketed) *)
+Definition topk_verdict (t : Logql.topk) (c : pctx) (d : LogqlSem.database) (rows : option table) : Z :=
+  if Z.ltb (get_duration (STopK t)) (c_step_ns c) then 3%Z else
+  match rows, ref_rows (topk_inner t) c d with
+  | Some tb, Some inner =>
+    match map_opt out_of_row tb with
+    | Some out => if topk_ok (tk_len t) (tk_top t) (tk_cmp t) (map orow_of inner) out then 0%Z else 1%Z
+    | None => 1%Z
+    end
+  | Some _, None => 1%Z
+  | None, Some _ => 2%Z
+  | None, None => 4%Z
+  end.
 
 (* what the check prints for a case: the rendering of the prepared tree, the verdicts of the implementation's statement under
    both tie orders against metric_ref_db and against the definition, and the two answers for a replay *)
@@ -164,12 +237,14 @@ Definition impl_case (s0 s : script) (c : pctx) (d : LogqlSem.database) (tree : 
   let want := ref_rows s c d in
   let r1 := eval_stmt tie_id c d q in
   {| io_text := SqlRender.render q (c_cluster c);
-     io_v1 := (if no_reference s then 3%Z else verdict_rows r1 want);
-     io_v2 := (if no_reference s then 3%Z else verdict_rows (eval_stmt tie_rev c d q) want);
+     io_v1 := (match s with STopK t => topk_verdict t c d r1 | _ => if no_reference s then 3%Z else verdict_rows r1 want end);
+     io_v2 := (match s with STopK t => topk_verdict t c d (eval_stmt tie_rev c d q)
+               | _ => if no_reference s then 3%Z else verdict_rows (eval_stmt tie_rev c d q) want end);
      io_vdef := (if agg_grouped s0 || no_reference s0 then 2%Z else
                  match r1, ref_rows_def s0 c d with Some _, Some _ => verdict_rows r1 (ref_rows_def s0 c d) | _, _ => 2%Z end);
      io_wdef := (if agg_grouped s0 then None else ref_rows_def s0 c d);
-     io_got := option_map (map out_of_row) r1; io_want := want |}.
+     io_got := option_map (map out_of_row) r1;
+     io_want := (match s with STopK t => ref_rows (topk_inner t) c d | _ => want end) |}.
 (* what the check prints for a case: verdicts under both tie orders, and the two answers for a replay *)
 Record exec_obs := { eo_v1 : Z; eo_v2 : Z; eo_vdef : Z; eo_wdef : option (list vrow); eo_got : option (list (option (lmap * Z * Q))); eo_want : option (list vrow) }.
 Definition exec_case (s : script) (c : pctx) (d : LogqlSem.database) : exec_obs :=
